@@ -57,7 +57,7 @@ def draw_gmm(n, loc, scale, pvals, random_state=None) -> Tuple[np.ndarray, np.nd
         raise ValueError("The proportions and the means do not contain the same number of components")
     if np.any(pvals <= 0):
         raise ValueError("Proportions or components should be strictly positive.")
-    if np.sum(pvals) != 1:
+    if not np.isclose(np.sum(pvals), 1):
         raise ValueError("Proportions of components do not add up to one.")
 
     generator = check_random_state(random_state)
